@@ -94,6 +94,13 @@ func NewNet(w *world.World) (*Net, error) {
 	return n, nil
 }
 
+// SetFault installs (or removes, with nil) the fault callback while requests may be in flight.
+func (n *Net) SetFault(f func(callIdx int, url string, reqs []*Received, normal []map[string]interface{}) *FaultResponse) {
+	n.mu.Lock()
+	n.Fault = f
+	n.mu.Unlock()
+}
+
 func (n *Net) Reset() {
 	n.mu.Lock()
 	n.Log = nil
